@@ -224,6 +224,25 @@ def run (ctx):
   if rel:
     gg = q.cfg_of(rsel); n = q.enclosing_stmt_node(gg, rel[0]); fs = q.fact_strs(gg, n)
     ctx.ob('R-DOM', rsel, "relative timeouts are converted to absolute deadlines exactly when they are relative", 'timeIsAbsolute:falsy' in fs and any(f.startswith('timeout !=') or f.startswith('timeout is not') for f in fs) and 'time.time()' in norm(rel[0].value), norm(rel[0]), rsel, 'D4')
+  # Select(rlist, wlist, xlist, timeout): whatever normalisation the constructor applies to the three lists, the fourth positional
+  # argument (the timeout) reaches registerSelect - evaluated on Select('r', None, 'x', 5)
+  selc = repo.cls(RC, 'Select'); si = selc.methods.get('__init__') if selc is not None else None
+  if si is not None and si.node.args.vararg is not None:
+    ctx.analysed(si); sg = q.cfg_of(si); va = si.node.args.vararg.arg
+    def hook_ (call, env=None):
+      if isinstance(call.func, ast.Name) and call.func.id == 'aslist' and len(call.args) == 1: return (True, 'L')
+      return (False, None)
+    tg = [n for n in sg.nodes if n.kind == 'stmt' and isinstance(n.ast, ast.Assign) and norm(n.ast.targets[0]) == 'self._args']
+    outs = set()
+    for smp in (('r', None, 'x', 5), (['r'], None, None, 5)):
+      for p_, e_ in q.paths_under(repo, mod, sg, q.Env({va: smp}, [], hook_), sg.entry, tg, selc, limit=60):
+        try: v_ = q.eval_env2(repo, mod, p_[-1].ast.value, e_, selc); outs.add((len(v_), v_[3] if len(v_) > 3 else None))
+        except Exception: outs.add('?')
+    if not tg or not outs or '?' in outs:
+      ctx.undecided('R-AGREE', si, "Select keeps its timeout argument", "constructor not evaluable on the sample call", si, 'D4')
+    else:
+      ctx.ob('R-AGREE', si, "Select keeps its timeout argument", outs == {(4, 5)}, "Select(r, w, x, 5) -> 4 arguments, timeout 5" if outs == {(4, 5)} else
+             "for Select(rlist, wlist, xlist, 5) the stored argument list is (length, timeout) = %s: the timeout is dropped, so a task waiting with a timeout on an idle socket is never resumed" % sorted(outs, key=str), si, 'D4')
   # ---- D5 Timer ------------------------------------------------------------------------------------------
   tm = repo.cls(RC, 'Timer'); tr = q.find_method(repo, tm, 'run', 'C06'); ctx.analysed(tr)
   # a relative timer is anchored to the moment it is started, not constructed
@@ -279,6 +298,20 @@ def run (ctx):
     ctx.ob('R-ORDER', ra, "result is stored before the caller is rescheduled (`%s`)" % n.text(40), all(r_ in g4.reachable(n) and n not in g4.reachable(r_) for r_ in rs), "store precedes fast_schedule", (mod, n.ast), 'D6')
   thr = [c for c in calls_in(ra.node, nested=True) if call_name(c) == 'throw']
   ctx.ob('R-AGREE', ra, "an exception thrown into the sub-task's wait is forwarded into the sub-generator", bool(thr), norm(thr[0]) if thr else "no g.throw", ra, 'D6')
+  # sys.exc_info() describes the exception being handled only while the handler runs: inside a lambda / nested def it is
+  # evaluated when that closure is called
+  for fn_ in [f_ for c_ in mod.classes.values() for f_ in c_.methods.values()] + list(mod.funcs.values()):
+    for h_ in [x for x in ast.walk(fn_.node) if isinstance(x, ast.ExceptHandler)]:
+      for clo in [x for b_ in h_.body for x in ast.walk(b_) if isinstance(x, (ast.Lambda, ast.FunctionDef))]:
+        lazy = [c for c in ast.walk(clo) if isinstance(c, ast.Call) and norm(c.func) == 'sys.exc_info']
+        if not lazy: continue
+        # called again inside the same handler only?  (then the exception is still being handled)
+        holder = [norm(t) for t, v, st, k in q.stores_in(fn_.node) if v is clo]
+        later = [c for c in calls_in(fn_.node) if holder and norm(c.func) in holder and not any(c is y for b_ in h_.body for y in ast.walk(b_))]
+        if later or not holder:
+          ctx.bad('R-AGREE', fn_, "the exception forwarded is the one that was caught (`%s`)" % norm(clo)[:50],
+                  "`sys.exc_info()` sits inside a closure created in the except block but called after it (line %s): by then no exception is being handled, it yields (None, None, None) and "
+                  "the forwarding call raises TypeError - the sub-task never sees the exception thrown into its wait" % (later[0].lineno if later else '?'), (mod, clo), 'D6')
   for nm, clo, use in defs.except_name_escapes(ra.node):
     ctx.bad('R-DEF', ra, "closure reads except-clause name `%s` after the handler ended" % nm,
             "`%s` captures `%s`, which Python deletes when the except block ends; calling it later (line %s) raises NameError instead of forwarding the exception: "
